@@ -283,6 +283,11 @@ def state_family(rng, n, kind):
                 for k in rng.sample(range(20), n)]
     elif kind == 'float':
         vals = [k + 0.5 for k in rng.sample(range(20), n)]
+    elif kind == 'bytes':
+        vals = [bytes([65 + k, 48 + (k % 7)]) for k in rng.sample(range(20), n)]
+    elif kind == 'frozenset':
+        vals = [frozenset([k, 'm'] if k % 2 else [k])
+                for k in rng.sample(range(20), n)]
     elif kind == 'obj':
         return [{'o': 'o{}'.format(k)} for k in rng.sample(range(50), n)]
     elif kind == 'tupobj':
@@ -298,4 +303,4 @@ def state_family(rng, n, kind):
 
 
 FAMILIES = ['permint', 'smallint', 'str', 'words', 'tuple', 'nested', 'float', 'mixed',
-            'obj', 'tupobj', 'bigint']
+            'obj', 'tupobj', 'bigint', 'bytes', 'frozenset']
